@@ -675,4 +675,58 @@ theorem pairsOf_acLoopsRow (hf n : Nat) :
         ++ [(iv n, iv ((n + 1) % hf)), (iv (n + hf), iv ((n + 1) % hf + hf)), (iv n, iv (n + 2 * hf)), (iv (n + hf), iv (n + 3 * hf))] := by
   unfold acLoopsRow; split <;> rfl
 
+/-! ## anti-crossing clique: the ground state is unique -/
+
+/-- a member of the list whose product with `u` is `−1` costs 2 -/
+theorem evalBag_negPairs_strict (x : Label → Rat) (hx : ∀ v, x v = 1 ∨ x v = -1) (u : Label) (f : Nat → Label) (l : List Nat)
+    (k : Nat) (hk : k ∈ l) (hneg : x u * x (f k) = -1) :
+    - (l.length : Rat) + 2 ≤ evalBag x (l.map (fun k => PTerm.quad u (f k) (-1))) := by
+  induction l with
+  | nil => simp at hk
+  | cons a r ih =>
+    have hcast : (((r.length + 1 : Nat)) : Rat) = (r.length : Rat) + 1 := by grind
+    simp only [List.map_cons, evalBag, PTerm.eval, List.length_cons, hcast]
+    rcases List.mem_cons.mp hk with rfl | hk'
+    · have := (evalBag_negPairs x hx u f r).1
+      rw [hneg]; grind
+    · have := ih hk'
+      have := pm_le _ (pm_mul _ _ (hx u) (hx (f a)))
+      grind
+
+/-- row `n` when the pair `(n, m)`, `n < m < hf`, is unsatisfied: at least 2 above its value at all-(+1) -/
+theorem acCliqueRow_pair_gap (x : Label → Rat) (hx : ∀ v, x v = 1 ∨ x v = -1) (hf n m : Nat) (hnm : n < m) (hm : m < hf)
+    (hneg : x (iv n) * x (iv m) = -1) :
+    evalBag (fun _ => (1 : Rat)) (acCliqueRow hf n) + 2 ≤ evalBag x (acCliqueRow hf n) := by
+  unfold acCliqueRow
+  have hmem : (m - (n + 1)) ∈ List.range (hf - (n + 1)) := List.mem_range.mpr (by omega)
+  have he : n + 1 + (m - (n + 1)) = m := by omega
+  have h := evalBag_negPairs_strict x hx (iv n) (fun k => iv (n + 1 + k)) (List.range (hf - (n + 1))) (m - (n + 1)) hmem (by simp only [he]; exact hneg)
+  have h1 := (evalBag_negPairs x hx (iv n) (fun k => iv (n + 1 + k)) (List.range (hf - (n + 1)))).2
+  simp only [evalBag_append, evalBag, PTerm.eval]
+  rw [h1]
+  rcases hx (iv n) with h2 | h2 <;> rcases hx (iv (n + hf)) with h3 | h3 <;> rw [h2, h3] <;> grind
+
+/-- row `n` when `x n = +1` and the attached variable is `−1`: 4 above -/
+theorem acCliqueRow_pendant_gap (x : Label → Rat) (hx : ∀ v, x v = 1 ∨ x v = -1) (hf n : Nat)
+    (h1 : x (iv n) = 1) (h2 : x (iv (n + hf)) = -1) :
+    evalBag (fun _ => (1 : Rat)) (acCliqueRow hf n) + 2 ≤ evalBag x (acCliqueRow hf n) := by
+  unfold acCliqueRow
+  have h := evalBag_negPairs x hx (iv n) (fun k => iv (n + 1 + k)) (List.range (hf - (n + 1)))
+  simp only [evalBag_append, evalBag, PTerm.eval]
+  rw [h.2, h1, h2]; grind
+
+/-- a gap in one row is a gap of the whole model -/
+theorem acCliqueAdds_gap (x : Label → Rat) (hx : ∀ v, x v = 1 ∨ x v = -1) (hf : Nat) (l : List Nat) (n : Nat) (hn : n ∈ l)
+    (hgap : evalBag (fun _ => (1 : Rat)) (acCliqueRow hf n) + 2 ≤ evalBag x (acCliqueRow hf n)) :
+    evalBag (fun _ => (1 : Rat)) (l.flatMap (acCliqueRow hf)) + 2 ≤ evalBag x (l.flatMap (acCliqueRow hf)) := by
+  induction l with
+  | nil => simp at hn
+  | cons a r ih =>
+    simp only [List.flatMap_cons, evalBag_append]
+    rcases List.mem_cons.mp hn with rfl | hn'
+    · have := acCliqueAdds_bound x hx hf r; grind
+    · have := ih hn'
+      have := acCliqueRow_bound x hx hf a
+      grind
+
 end Gen
